@@ -66,6 +66,8 @@ type c12Spec struct {
 	NUsers int       `json:"nusers"`
 	Gen    c12Gen    `json:"gen"`
 	Blocks [][]c12Op `json:"blocks"` // transactions per block (kind, a, amt)
+	// indices of blocks before whose BeginBlock the node process is restarted (fresh stores over the same data)
+	RestartBefore []int `json:"restart_before,omitempty"`
 }
 
 type c12Case struct {
@@ -194,6 +196,9 @@ func (r *c12Runner) snap() c12Snap {
 			if i, ok := who(p[1]); ok {
 				s.RPend = append(s.RPend, c12Entry{H: h, A: i, Amt: c12Amount(val)})
 			}
+		case strings.HasPrefix(k, "deleg") && k != "delegRwz_total_rewards":
+			// e.g. "deleg_a<addr>" or "deleg_p_<addr>": a delegation-store key of no known shape
+			r.c.Alien = append(r.c.Alien, k)
 		}
 	}
 	return s
@@ -254,6 +259,11 @@ func c12Run(spec c12Spec, choose c12Chooser, nblocks int) *c12Case {
 		nblocks = len(spec.Blocks)
 	}
 	for b := 0; b < nblocks; b++ {
+		for _, rb := range spec.RestartBefore {
+			if rb == b && b > 0 {
+				rep.Crash() // copy of the on-disk data after the last Commit, fresh application over it
+			}
+		}
 		in := BlockIn{Absent: map[int]bool{}}
 		rep.BeginBlock(&in)
 		cur := r.snap()
@@ -437,6 +447,14 @@ func c12Chooser1(r *rand.Rand, n int, maxTx int, hist map[string]int) c12Chooser
 			}
 			hist[cls]++
 			ops = append(ops, o)
+			if o.Kind == "undelegate" && r.Intn(4) == 0 {
+				// directly afterwards a reinvestment, usually by ANOTHER delegator, of a part of his rewards
+				b := r.Intn(n)
+				if rw := c12Big(cur.Rew[b]); rw.Sign() > 0 {
+					ops = append(ops, c12Op{Kind: "reinvest", A: b, Amt: new(big.Int).Div(rw, big.NewInt(int64(2+r.Intn(5)))).String()})
+					hist["reinvest-after-undelegate"]++
+				}
+			}
 		}
 		return ops
 	}
@@ -543,6 +561,10 @@ type c12Report struct {
 	FirstSeen int            `json:"accruals_to_an_active_key_first_written_in_the_previous_block"`
 	Accr2     int            `json:"blocks_with_accrual_to_two_or_more_delegators"`
 	AccrReinv int            `json:"accruals_right_after_a_reinvestment_by_the_same_delegator"`
+	ReinvOK   int            `json:"successful_reinvests"`
+	ReinvUnd  int            `json:"successful_reinvests_directly_after_a_successful_undelegate"`
+	ReinvUndO int            `json:"successful_reinvests_directly_after_an_undelegate_by_another_delegator"`
+	Restarts  int            `json:"node_restarts"`
 	Alien     int            `json:"alien_keys"`
 	Files     []string       `json:"files"`
 	Samples   []string       `json:"samples"`
@@ -556,6 +578,17 @@ func c12Witnesses() []c12Spec {
 		// a genesis with pending entries at unrelated heights: every entry paid exactly once
 		// (the recorded findings are passed in through -extra by the check)
 		{Name: "witness_plain_pending", NUsers: 3, Gen: c12Gen{Pending: []c12Entry{{H: 5, A: 0, Amt: "8" + e18}, {H: 7, A: 1, Amt: "5" + e18}, {H: 7, A: 2, Amt: "2" + e18}}}, Blocks: blocks(9)},
+	}
+	// reinvestment right after another delegator's undelegation (the delegation Store is one shared
+	// object whose current key prefix every handler has to set itself), and reinvestment as the first
+	// delegation handler of a restarted node (fresh Store)
+	{
+		d := func(a int) c12Op { return c12Op{Kind: "delegate", A: a, Amt: "1000" + e18} }
+		ri := c12Op{Kind: "reinvest", A: 0, Amt: "1000"}
+		b1 := [][]c12Op{{d(0), d(1)}, {}, {}, {ri}, {{Kind: "undelegate", A: 1, Amt: "10" + e18}, ri}, {{Kind: "undelegate", A: 1, Amt: "10" + e18}}, {ri}, {}}
+		w = append(w, c12Spec{Name: "witness_reinvest_after_undelegate", NUsers: 2, Blocks: b1})
+		b2 := [][]c12Op{{d(0), d(1)}, {}, {}, {ri}, {}, {{Kind: "undelegate", A: 1, Amt: "10" + e18}}, {ri}}
+		w = append(w, c12Spec{Name: "witness_reinvest_first_after_restart", NUsers: 2, Blocks: b2, RestartBefore: []int{3, 6}})
 	}
 	// a ZERO undelegation by one delegator (alone in the block for him) next to real undelegations of
 	// the others maturing at the same height: the zero entry is a real key of the scan; everybody else
@@ -640,6 +673,8 @@ func c12Main(args []string) int {
 		multi := false
 		undOK, reinvOK, newKey := map[int]int{}, map[int]bool{}, map[int]bool{}
 		hadKey := map[int]bool{}
+		lastStoreOp, lastStoreBy := "", -1
+		rep.Restarts += len(c.Spec.RestartBefore)
 		for _, e := range c.Gen.Active {
 			hadKey[e.A] = true
 		}
@@ -665,6 +700,18 @@ func c12Main(args []string) int {
 				perBlock, multi = map[int]int{}, false
 				undOK, reinvOK, newKey = map[int]int{}, map[int]bool{}, map[int]bool{}
 				continue
+			}
+			if c.Res[i] && o.Kind == "reinvest" {
+				rep.ReinvOK++
+				if lastStoreOp == "undelegate" {
+					rep.ReinvUnd++
+					if lastStoreBy != o.A {
+						rep.ReinvUndO++
+					}
+				}
+			}
+			if c.Res[i] && (o.Kind == "delegate" || o.Kind == "undelegate" || o.Kind == "reinvest") {
+				lastStoreOp, lastStoreBy = o.Kind, o.A
 			}
 			if c.Res[i] {
 				switch o.Kind {
